@@ -268,3 +268,57 @@ def lost_updates(prog, chk, rid, min_instances=20):
                               'copied from' % (short, d.get('name'), d.get('type'), locstr(ws[0])))
     if total < min_instances:
         chk.fail_broken('%s: only %d local(s) with member assignments found (expected >= %d)' % (rid, total, min_instances))
+
+
+def fetch_widths(prog, chk, rid, maps, min_instances=100):
+    """A SELECT sink that builds a row aggregate from its lambda parameters fetches each column
+    into a C++ type at least as wide as the row field it initialises (an `int32_t` parameter for an
+    `int64_t` field truncates in sqlite3_column_int and widens the damaged value again)."""
+    from .domains import _int_width_ok
+    n = 0
+    for sm in maps:
+        if sm.stmt.kind != 'select' or sm.site.sink is None:
+            continue
+        sink = strip(sm.site.sink)
+        params = []
+        for x in walk(sink):
+            if x.get('kind') == 'CXXMethodDecl' and x.get('name') == 'operator()':
+                params = [p for p in children(x) if p.get('kind') == 'ParmVarDecl']
+                break
+        pid = {p.get('id'): p for p in params}
+        if not pid:
+            continue
+        from . import program as _pg
+        for x in walk(sink):
+            if x.get('kind') not in ('InitListExpr', 'CXXConstructExpr', 'CXXTemporaryObjectExpr'):
+                continue
+            rec = prog.records.get(_pg.norm_type_name(x.get('type') or ''))
+            if rec is None or not rec.fields:
+                continue
+            args = [a for a in children(x) if a.get('kind') != 'CXXDefaultArgExpr']
+            if len(args) != len(rec.fields):
+                continue
+            for a, fd in zip(args, rec.fields):
+                r = strip(a, explicit=True)
+                while r.get('kind') in ('CXXConstructExpr', 'MaterializeTemporaryExpr', 'CXXBindTemporaryExpr',
+                                        'ImplicitCastExpr', 'CXXFunctionalCastExpr') and \
+                        len([c_ for c_ in children(r) if c_.get('kind') != 'CXXDefaultArgExpr']) == 1:
+                    r = strip([c_ for c_ in children(r) if c_.get('kind') != 'CXXDefaultArgExpr'][0], explicit=True)
+                if r.get('kind') != 'DeclRefExpr' or (r.get('referencedDecl') or {}).get('id') not in pid:
+                    continue
+                p = pid[r['referencedDecl']['id']]
+                pt, ft = p.get('type') or '', fd.get('type') or ''
+                wp, wf = _int_width_ok(pt), _int_width_ok(ft)
+                if wp is None or wf is None:
+                    continue
+                n += 1
+                short = '::'.join((sm.site.func.qualname or '').split('::')[-2:])
+                inst = '%s: %s fetched as %s into field %s (%s)' % (short, p.get('name'), pt, fd.get('name'), ft)
+                if wp is False and wf is True:
+                    chk.violation(rid, '%s|%s fetched narrower than %s' % (short, p.get('name'), fd.get('name')),
+                                  locstr(sm.site.node), inst + ': the column value is truncated to 32 bits before it '
+                                  'reaches the 64-bit field, so large stored values do not read back as written')
+                else:
+                    chk.ok(rid, inst, locstr(sm.site.node))
+    if n < min_instances:
+        chk.fail_broken('%s: only %d parameter-to-field pairs found (expected >= %d)' % (rid, n, min_instances))
